@@ -499,7 +499,7 @@ unsafe fn of1024_impl(cv: &mut X8) {
     cv.7 = p.7;
 }
 
-#[cfg(any(feature = "std", target_feature = "aes"))]
+#[cfg(any(feature = "std", target_feature = "aes", target_feature = "ssse3"))]
 pub mod aes {
     use super::*;
     #[target_feature(enable = "sse2", enable = "ssse3", enable = "aes")]
@@ -585,8 +585,38 @@ pub mod sse2 {
 #[cfg(target_feature = "ssse3")]
 pub use self::ssse3 as sse2;
 
+// Without std there is no run-time detection: use the best implementation the target guarantees
+// (`sse2` names it, see the aliases above) behind the same safe signatures as `autodetect`.
 #[cfg(all(not(feature = "std"), target_feature = "sse2"))]
-pub use self::sse2::*;
+mod static_dispatch {
+    use super::*;
+    #[inline]
+    pub fn tf512(cv: &mut X4, data: &GenericArray<u8, U64>) {
+        unsafe { sse2::tf512(cv, data.as_ptr()) }
+    }
+    #[inline]
+    pub fn of512(cv: &mut X4) {
+        unsafe { sse2::of512(cv) }
+    }
+    #[inline]
+    pub fn init512(cv: X4) -> X4 {
+        unsafe { sse2::init512(cv) }
+    }
+    #[inline]
+    pub fn tf1024(cv: &mut X8, data: &GenericArray<u8, U128>) {
+        unsafe { sse2::tf1024(cv, data.as_ptr()) }
+    }
+    #[inline]
+    pub fn of1024(cv: &mut X8) {
+        unsafe { sse2::of1024(cv) }
+    }
+    #[inline]
+    pub fn init1024(cv: X8) -> X8 {
+        unsafe { sse2::init1024(cv) }
+    }
+}
+#[cfg(all(not(feature = "std"), target_feature = "sse2"))]
+pub use self::static_dispatch::*;
 
 #[cfg(feature = "std")]
 mod autodetect {
